@@ -399,8 +399,67 @@ impl<'tcx> Dumper<'tcx> {
         obj(&items)
     }
 
+    /// Structured view of an aggregate constant (arrays / tuples / ADTs of scalars), independent of memory layout.
+    fn const_tree(&mut self, val: &ConstValue, t: Ty<'tcx>, depth: usize) -> Option<String> {
+        let tcx = self.tcx;
+        if depth > 4 {
+            return None;
+        }
+        match t.kind() {
+            ty::Bool | ty::Char | ty::Int(_) | ty::Uint(_) => {
+                if let ConstValue::Scalar(mir::interpret::Scalar::Int(i)) = val {
+                    let size = i.size();
+                    let bits = i.to_bits(size);
+                    let v = if let ty::Int(_) = t.kind() { (size.sign_extend(bits) as i128).to_string() } else { bits.to_string() };
+                    let tid = self.ty(t);
+                    return Some(obj(&[("int", v), ("ty", tid.to_string())]));
+                }
+                None
+            }
+            ty::Array(..) | ty::Tuple(..) | ty::Adt(..) => {
+                if let ty::Adt(def, _) = t.kind() {
+                    if !(def.is_struct() || def.is_enum()) {
+                        return None;
+                    }
+                }
+                let r = std::panic::catch_unwind(std::panic::AssertUnwindSafe(|| tcx.try_destructure_mir_constant_for_user_output(*val, t)));
+                let d = match r {
+                    Ok(Some(d)) => d,
+                    _ => return None,
+                };
+                if d.fields.len() > 512 {
+                    return None;
+                }
+                let mut fs = Vec::new();
+                for (fv, ft) in d.fields.iter() {
+                    fs.push(self.const_tree(fv, *ft, depth + 1)?);
+                }
+                let tid = self.ty(t);
+                let kind = match t.kind() {
+                    ty::Array(..) => "array",
+                    ty::Tuple(..) => "tuple",
+                    _ => "adt",
+                };
+                let mut items = vec![("agg", esc(kind)), ("ty", tid.to_string()), ("fields", arr(&fs))];
+                if let Some(v) = d.variant {
+                    items.push(("variant", v.as_usize().to_string()));
+                }
+                Some(obj(&items))
+            }
+            _ => None,
+        }
+    }
+
     fn const_value(&mut self, val: &ConstValue, t: Ty<'tcx>, items: &mut Vec<(&'static str, String)>) {
         let tcx = self.tcx;
+        if matches!(val, ConstValue::Indirect { .. }) && matches!(t.kind(), ty::Array(..) | ty::Tuple(..) | ty::Adt(..)) {
+            let elem_is_byte = matches!(t.kind(), ty::Array(e, _) if matches!(e.kind(), ty::Uint(ty::UintTy::U8)));
+            if !elem_is_byte {
+                if let Some(tree) = self.const_tree(val, t, 0) {
+                    items.push(("tree", tree));
+                }
+            }
+        }
         match val {
             ConstValue::Scalar(mir::interpret::Scalar::Int(i)) => {
                 let size = i.size();
